@@ -36,7 +36,8 @@ def build_cases(tier, seed):
     if tier != "quick":
         for n in (5, 6, 7):
             for sup in itertools.combinations_with_replacement((0, 0.1, 1, 3), n):
-                cs.append(("bt", sup))
+                if any(x > 0 for x in sup):
+                    cs.append(("bt", sup))
             cs.append(("bt", tuple([1e-3, 1e3, 1, 0.1, 3, 2, 5][:n])))
     else:
         for n in (5, 6):
